@@ -23,7 +23,13 @@ PY = sys.executable
 
 def make_copy(patch):
     scratch = tempfile.mkdtemp(prefix='gpseed_', dir='/tmp')
-    subprocess.run(f'git -C /repo archive HEAD | tar -x -C {scratch}',
+    # a patch written against an earlier commit of /repo (before a later
+    # `fix:` touched the same lines) names that commit in base.txt
+    base = 'HEAD'
+    bp = os.path.join(os.path.dirname(os.path.abspath(patch)), 'base.txt')
+    if os.path.exists(bp):
+        base = open(bp).read().strip()
+    subprocess.run(f'git -C /repo archive {base} | tar -x -C {scratch}',
                    shell=True, check=True)
     subprocess.run(['git', 'init', '-q'], cwd=scratch, check=True)
     p = subprocess.run(['git', 'apply', os.path.abspath(patch)], cwd=scratch,
@@ -47,6 +53,7 @@ def run_check(prop, src, n=None, tier='quick'):
     env['PYTHONPATH'] = src + os.pathsep + ROOT
     env['GEARPY_SRC'] = src
     env['GPSIM_SHRINK_S'] = '15'
+    env['GPSIM_MAX_REPLAYS'] = '8'
     env['GPSIM_OUT'] = os.path.join(src, '_gpsim_out')
     cmd = [PY, '-m', 'gpsim.check', prop, '--tier', tier, '--no-evidence']
     if n:
